@@ -98,6 +98,12 @@ void fp2_inv_sim(fp2_t *c, const fp2_t *a, int n) {
 	int i;
 	fp2_t u, *t = RLC_ALLOCA(fp2_t, n);
 
+	if (n <= 0) {
+		/* Nothing to invert. */
+		RLC_FREE(t);
+		return;
+	}
+
 	if (t != NULL) {
 		for (i = 0; i < n; i++) {
 			fp2_null(t[i]);
